@@ -85,6 +85,22 @@ func RandomHistory(e *Env, r *rand.Rand, p Profile) {
 		first.StructNames = dedupe(first.StructNames) // duplicate tags inside one struct are the struct's business (C20)
 	}
 	e.Apply(first)
+	if p.Name == "init" && first.Bad == "" && r.Intn(8) == 0 {
+		// a long outage: every fetch fails for many consecutive rounds; the pause between rounds stays bounded,
+		// and construction completes as soon as the service is back
+		for _, n := range p.Names {
+			e.Apply(Step{Do: "svcmode", Name: n, Mode: "fail"})
+		}
+		for round := 0; round < 16+r.Intn(4); round++ {
+			for k := 0; k < 4 && len(e.Pending()) > 0; k++ {
+				e.Apply(Step{Do: "respond", Name: e.Pending()[0]})
+			}
+			e.Apply(Step{Do: "advance", Ms: []int64{4096, 4100, 5000}[r.Intn(3)]})
+		}
+		for _, n := range p.Names {
+			e.Apply(Step{Do: "svcmode", Name: n, Mode: "ok"})
+		}
+	}
 	if p.Readers > 0 {
 		e.StartReaders([]string{"r1", "r2", "r3"}[:p.Readers])
 	}
